@@ -367,3 +367,8 @@ MANIFEST_TEXT["C05"] = {
     "technique": "runtime monitoring: CLI transcripts (exit status, stdout) against reference semantics and an error matrix",
 }
 NOT_APPLICABLE[:] = [e for e in NOT_APPLICABLE if e["property_id"] not in ("C05",)]
+
+PROPS["C12"]["aux"] = ["miri"]
+PROPS["C13"]["aux"] = ["miri"]
+PROPS["C15"]["aux"] = ["memcheck"]
+PROPS["C16"]["aux"] = ["memcheck"]
